@@ -168,7 +168,13 @@ def judgeHop (src dst : String) (x y : Float) (h : Hop) : Option String :=
         if ix.isNaN || iy.isNaN then none
         else some s!"SPEC {tag} proj4js-fails-({e})-port-answers ({fmt ix},{fmt iy})"
       | .ok (jx, jy) =>
-        let dj := dist sc (ix, iy) (jx, jy)
+        -- identical source and destination (nil transformer, the port returns the input unchanged): proj4js still runs
+        -- its pipeline, and for a geographic system with a prime meridian and a 3/7-parameter datum it returns the
+        -- SAME position a full turn away when lon + pm passes 180 degrees (its geodetic_to_geocentric brings the
+        -- longitude into (-pi, pi], nothing brings it back after the prime meridian is subtracted: 163.98 -> -196.02).
+        -- Only in this case geographic longitudes are compared modulo a full turn.
+        let sameHop := (match h with | .same _ _ => true | _ => false)
+        let dj := if sameHop && ident then distRef sc (ix, iy) (jx, jy) else dist sc (ix, iy) (jx, jy)
         -- identical source and destination: the transformation is the identity and the port returns
         -- the input unchanged (nil transformer); proj4js runs inverse∘forward, whose own round-trip
         -- noise (iteration stops at 1e-10 rad) is not a disagreement about the transformation.
